@@ -13,7 +13,7 @@ CHECKS = {
         note=TRUST + "Names/comments embedding record signatures are skipped by a computed ambiguity predicate (R2).",
         tech="deterministic simulation: seeded program + I/O-schedule search against a reference model (finish vs drop crash point)"),
     "C02": dict(level="exploration", ref="DESIGN.md §4 C02",
-        text="Same simulated runs over the full writer alphabet (extra data, aligned, ZipCrypto, raw copy, append rounds, over-long fields); every archive the writer reports as successful is judged by an independent strict parser (Appendix D rules), and unrepresentable inputs must be rejected. Exploration over programs and schedules.",
+        text="Same simulated runs over the full writer alphabet (extra data, aligned, ZipCrypto, raw copy, append rounds, over-long fields); every archive the writer reports as successful is judged by an independent strict parser (Appendix D rules), by CPython's zipfile and (where it applies) Info-ZIP unzip -t, and unrepresentable inputs must be rejected; the same programs also run on a sparse simulated disk around the 4 GiB / 65535-entry limits (ZIP64 clause), with passwords and the path-taking calls drawn for every entry-creating call. Exploration over programs and schedules.",
         note=TRUST + "Literal 0xFFFF/0xFFFFFFFF without ZIP64 is accepted where no ZIP64 record is present.",
         tech="deterministic simulation: seeded program + I/O-schedule search judged by an independent APPNOTE parser"),
     "C03": dict(level="exploration", ref="DESIGN.md §4 C03",
@@ -25,11 +25,11 @@ CHECKS = {
         note=TRUST + "The CRC of the returned bytes is recomputed by the harness's own CRC-32.",
         tech="deterministic simulation: enumerated bit-rot faults on simulated storage, read under seeded short-read schedules"),
     "C05": dict(level="exploration", ref="DESIGN.md §4 C05",
-        text="Crash-truncated, torn, bit-rotted, spliced and structure-aware lying images (every prefix, every representative byte value at every structural offset, every header field x boundary value of small seeds are enumerated; random multi-site damage and arbitrary bytes are sampled) are driven through the whole reading surface (seekable reader, raw/decrypt/by-name access, all accessors, streaming reader, visitor, open-for-append) in monitored worker processes: panics (overflow checks on), aborts, step-budget overruns and heap blow-ups while opening are violations.",
+        text="Crash-truncated, torn, bit-rotted, spliced and structure-aware lying images (every prefix, every representative byte value at every structural offset, every header field x boundary value of small seeds are enumerated; random multi-site damage and arbitrary bytes are sampled) are driven through the whole reading surface (seekable reader, raw/decrypt/by-name access, all accessors, the provided methods of std::io::Read (read_to_end, read_to_string, read_exact, io::copy, bytes) where the real output is bounded by the input, streaming reader, visitor, open-for-append) in monitored worker processes; header fields are lied about one at a time and in combinations that vouch for each other (entry count + directory size, offset + size, both sizes, all variable lengths); panics (overflow checks on), aborts, step-budget overruns and heap blow-ups while opening are violations.",
         note=TRUST + "Heap bound 1024 x len + 8 MiB by a counting allocator; step budget 4M + 16 x len I/O calls; wall-clock watchdog for loops without I/O.",
         tech="deterministic simulation: seeded + enumerated storage faults (crash points, bit rot, lying fields) with panic/abort/step/heap monitors"),
     "C07": dict(level="exploration", ref="DESIGN.md §4 C07",
-        text="Archives with hostile and benign names are extracted by both extractors from a simulated source (short reads, optional reader fault) into a fresh 16-level-deep sandbox on the real file system; the sandbox outside the target is snapshotted before/after (confinement), unsafe names must yield Err, and for safe consistent names the tree, bytes and permission bits must equal the reference tree.",
+        text="Archives with hostile and benign names are extracted by both extractors from a simulated source (short reads, optional reader fault) into a fresh 16-level-deep sandbox on the real file system; the sandbox outside the target is snapshotted before/after (confinement), unsafe names must yield Err, and for safe consistent names the tree, bytes and permission bits must equal the reference tree. Names come with slashes and with backslashes, directory entries may follow their children or exist already, and the target is named absolutely or by relative spellings ('../target', './target', 'x/../target', '.').",
         note=TRUST + "The sink is the real kernel FS on purpose (confinement is about what the kernel does with the path); even a real escape cannot leave the sandbox.",
         tech="deterministic simulation of the archive source + sandboxed real-FS snapshot oracle over a seeded hostile-name grammar"),
     "C08": dict(level="exploration", ref="DESIGN.md §4 C08",
@@ -41,11 +41,11 @@ CHECKS = {
         note=TRUST + "Plain, ZipCrypto (crate-written and independently encrypted) and AE-1/AE-2 entries.",
         tech="deterministic simulation: schedule exploration (the I/O fragmentation schedule is the quantified variable)"),
     "C10": dict(level="exploration", ref="DESIGN.md §4 C10",
-        text="The same bytes are read by the seekable reader (reference) and front-to-back from a non-seekable simulated stream with short reads; per entry a drawn consumption pattern (0, 1, k, all-1, all, all+reads after EOF) forces the drop-time drain to resynchronise from every decoder state; the visitor API must deliver files in order, then the central metadata once per entry in order; encrypted / data-descriptor entries must be refused.",
+        text="The same bytes are read by the seekable reader (reference) and front-to-back from a non-seekable simulated stream with short reads; per entry a drawn consumption pattern (0, 1, k, all-1, all, all+reads after EOF) forces the drop-time drain to resynchronise from every decoder state; the visitor API must deliver files in order, then the central metadata once per entry in order; encrypted / data-descriptor entries must be refused; with bit rot inside ONE entry's data every other entry must still arrive exactly as through the seekable reader.",
         note=TRUST + "The seekable reader's own fidelity is established by C01/C03.",
         tech="deterministic simulation: seeded histories of partial consumption on a simulated non-seekable stream vs the seekable reader"),
     "C11": dict(level="fault_enumeration", ref="DESIGN.md §4 C11",
-        text="For each seeded program (writer sequences incl. append/raw copy/extra data/encryption; open+read-all incl. ZIP64/ZipCrypto/AES/junk prefix; streaming reader) a failure-free run, then one run per I/O call index k and fault kind (hard error, sticky error, EINTR, zero-length write, early EOF) with the fault at k; remaining operations, finish and Drop still run. Oracle: no panic/abort; some call reported an error OR the outcome equals the failure-free run semantically.",
+        text="For each seeded program (writer sequences incl. append/raw copy/extra data/encryption; open+read-all incl. ZIP64/ZipCrypto/AES/junk prefix; streaming reader) a failure-free run, then one run per I/O call index k and fault kind (hard error, sticky error, EINTR, zero-length write, early EOF) with the fault at k; remaining operations, retried reads on the failed entry, finish and Drop still run. Oracle: no panic/abort/hang; some call reported an error OR the outcome equals the failure-free run semantically; and if finish() reports success after an error was reported, the archive is structurally valid and lists no entry whose creating call failed.",
         note=TRUST + "k is enumerated completely when the failure-free run has <= 400 I/O calls, otherwise first/last 100 plus a seeded sample; pairs of faults in the thorough tier.",
         tech="deterministic simulation: fault enumeration over every I/O call index of seeded programs"),
     "C12": dict(level="exploration", ref="DESIGN.md §4 C12, Appendix C",
@@ -73,7 +73,7 @@ CHECKS = {
         note=TRUST + "Alignments are drawn from boundary values, powers of two and uniformly from 0..65535.",
         tech="deterministic simulation: seeded programs with alignment arithmetic checked on the image by the independent parser"),
     "C20": dict(level="exploration", ref="DESIGN.md §4 C20",
-        text="Clones of one archive driven by per-handle scripts: (A) a seeded scheduler releases one script step at a time across handle threads (baton passing), (B) shuttle's seeded random/PCT schedulers interleave handle threads at every source I/O call and at the shared relaxed atomic; each handle's observation log must equal its solo run. (C) a compile-time probe asserts Send + Sync.",
+        text="Clones of one archive driven by per-handle scripts: (A) a seeded scheduler releases one script step at a time across handle threads (baton passing), (B) shuttle's seeded random/PCT schedulers interleave handle threads at every source I/O call and at the shared relaxed atomic; each handle's observation log must equal its solo run; in a third of the cases some handles' own readers fail (seeded I/O faults per clone) and every OTHER handle must be unaffected. (C) a compile-time probe asserts Send + Sync.",
         note=TRUST + "Part B builds the crate through a shadow manifest with the guarded hook (private atomic alias -> shuttle's); parts A and C use the crate as shipped.",
         tech="deterministic simulation: seeded schedulers (own baton scheduler + shuttle random/PCT) over cloned-handle scripts"),
 }
